@@ -585,6 +585,8 @@ pub struct Profile {
     pub read_fault: bool,
     /// the output device fills up in this run: seed of the byte count it still accepts (0 = never)
     pub write_fault: u64,
+    /// covering family only: the machine's core count (0 = the default)
+    pub cover_cores: u32,
 }
 
 impl Profile {
@@ -600,6 +602,7 @@ impl Profile {
         biased: false,
         read_fault: false,
         write_fault: 0,
+        cover_cores: 0,
     };
 
     /// Swarm-style: every run draws its own mix.
@@ -638,6 +641,7 @@ impl Profile {
             biased: false,
             read_fault: false,
         write_fault: 0,
+        cover_cores: 0,
         }
     }
 
@@ -684,6 +688,7 @@ impl Profile {
             biased: false,
             read_fault: false,
         write_fault: 0,
+        cover_cores: 0,
         }
     }
 
@@ -1688,7 +1693,11 @@ impl World {
         let n = match &mut self.mode {
             Mode::Random { aux, profile, .. } => {
                 if profile.cover_iter.is_some() {
-                    DEFAULT_CORES
+                    if profile.cover_cores != 0 {
+                        profile.cover_cores
+                    } else {
+                        DEFAULT_CORES
+                    }
                 } else {
                     // half of the runs: the counts most machines report; the other half: anything
                     // from 1 to 128 (chunking arithmetic goes wrong at particular counts)
